@@ -461,9 +461,18 @@ func c11Body(r *vlib.Run) int {
 func c11E2E(r *vlib.Run, valids []*c11Valid, cases []interface{}, nv int, scratch string) {
 	max := r.N(150, 2500)
 	var idx []int
-	for i := 0; i < nv && len(idx) < max; i++ {
-		if c, ok := cases[i].(c11Case); ok && c.Pipe != nil {
-			idx = append(idx, i)
+	// queries whose quoted strings contain a run of blanks first: the command
+	// path splits and re-joins the query at blanks
+	blankRun := regexp.MustCompile(`"[^"]*  [^"]*"`)
+	for pass := 0; pass < 2; pass++ {
+		for i := 0; i < nv && len(idx) < max; i++ {
+			c, ok := cases[i].(c11Case)
+			if !ok || c.Pipe == nil {
+				continue
+			}
+			if (pass == 0) == blankRun.MatchString(c.Q) {
+				idx = append(idx, i)
+			}
 		}
 	}
 	os.MkdirAll(scratch, 0755)
